@@ -147,6 +147,9 @@ func Build(s *Setup, reqs []*Req, o BuildOpts) *World {
 				opt.Directory = o.Dir
 			default:
 				opt.FileSystem = o.FS
+				if s.Static.AlsoDirectory {
+					opt.Directory = o.OtherDir // documented: ignored when FileSystem is set
+				}
 			}
 			if s.Static.Expires {
 				opt.Expires = o.Expires
@@ -168,6 +171,11 @@ func Build(s *Setup, reqs []*Req, o BuildOpts) *World {
 			return func(c flamego.Context, r *http.Request) {
 				q := w.reqOf(r)
 				c.Map(log.NewWithOptions(sinkFor(q), log.Options{Level: log.DebugLevel, Prefix: q.Name}))
+			}
+		case HkUpstreamHeaders:
+			return func(rw http.ResponseWriter) {
+				rw.Header().Set("Content-Type", "application/x-upstream")
+				rw.Header().Set("X-Upstream", "1")
 			}
 		case HkToken:
 			return func(c flamego.Context, r *http.Request) {
